@@ -515,7 +515,8 @@ def run_cases(ctx, cases, name, rows_fn=None, chunk=40):
     from props.c14 import unitab, table_term      # the unicode oracle rows (dumped from Go)
     b = Batch(ctx, name)
     for c in cases:
-        jobs = [{"t": "Root", "doc": json.dumps(d["doc"]), "wire": c.wire} for d in c.docs]
+        jobs = [{"t": d.get("t", "Root"), "doc": d["raw"] if "raw" in d else json.dumps(d["doc"]), "wire": d.get("wire", c.wire), "prior": d.get("prior", "")}
+                for d in c.docs]
         c.batch_case = b.add({"id": c.cid, "cfg": c.cfg(), "files": {"s.json": json.dumps(c.schema)}, "argv": ["s.json"], "jobs": jobs})
     b.run()
     names = set()
@@ -547,7 +548,7 @@ def run_cases(ctx, cases, name, rows_fn=None, chunk=40):
             docs = []
             for di, d in enumerate(c.docs):
                 o = d.get("obs")
-                if o is None:
+                if o is None or "raw" in d or d.get("t", "Root") != "Root" or d.get("wire", c.wire) != "json":
                     continue
                 v = VERD.get(o["v"], 2)
                 val = "None"
